@@ -23,7 +23,7 @@ def shards(tier):
 def floors(tier):
     return {"variants": 20000, "bases": 1500, "nop_in_index_position": 5000, "nop_after_branch_or_ring": 5000,
             "exhaustive_single_insertions": 3000, "padding_roundtrips": 1000, "bases_that_raise": 50, "M6.calls": 20000,
-            "nop_at_fragment_edge": 2000, "bases_with_empty_fragment": 100, "long_nop_runs": 50, "soak_distinct_symbols": 100000, "bases.after_soak": 100}
+            "nop_at_fragment_edge": 2000, "bases_with_empty_fragment": 100, "deep_nesting_variants": 40, "long_nop_runs": 50, "soak_distinct_symbols": 100000, "bases.after_soak": 100}
 
 
 def outcome(sf, x, **k):
@@ -172,6 +172,28 @@ def run(ctx):
     table = None
     g = None
     workload(500 if quick else 25000, "")
+    # branches nested far beyond (and well below) what the interpreter's recursion limit allows - known finding F5 is
+    # C08's business; here only: with and without padding the outcome is the same, whatever it is
+    sf.set_semantic_constraints("default")
+    for units in ([300, 1500] if quick else [200, 300, 1200, 1500, 2500, 4000]):
+        unit = rng.choice(["[S][#Branch1][P][=Branch1][P][Branch1][P]", "[S][Branch1][P]", "[C][=Branch2][P][P]", "[P][#Branch1][S]"])
+        toks_d = tokens_with_dots(unit * units + "[C]")
+        base = "".join(toks_d)
+        r0 = outcome(sf, base)[:2]
+        npad = rng.choice([150, 1000, 3000])
+        variants_d = {"tail": base + "[nop]" * npad, "head": "[nop]" * npad + base,
+                      "after-every-4th": "".join(t + ("[nop]" if k % 4 == 3 else "") for k, t in enumerate(toks_d)),
+                      "encoding-utilities": None}
+        for tag_d, y in variants_d.items():
+            if y is None:
+                continue
+            r = outcome(sf, y)[:2]
+            ctx.count("deep_nesting_variants")
+            ctx.case(("deep", units, unit, tag_d), True)
+            if r != r0:
+                ctx.finding("nop-changes-decoder-outcome", {"selfies": "%s * %d + [C]" % (unit, units), "placement": "deep-" + tag_d,
+                                                           "nop": npad, "table": "default"},
+                            "unpadded: %r ; padded: %r" % (r0[:2] if r0[0] != "ok" else ("ok", r0[1][:60]), r[:2] if r[0] != "ok" else ("ok", r[1][:60])))
     if ctx.shard % 4 == 0:
         # soak: a long-lived process has translated a very large number of distinct symbols (tables with a size
         # limit, interning, eviction ...) - the padding symbol must still be invisible afterwards
